@@ -151,6 +151,14 @@ fn check_scene(sc: &Scene, su: &Setup, rng: &mut Rng, st: &mut Stats) -> Option<
         if su.pixel_perfect {
             match px.unpack() {
                 DistancePixel::Value(v) => {
+                    if v_ref.is_nan() {
+                        // C03 excludes NaN point values from what interval
+                        // evidence guarantees, so a tile simplified on such
+                        // evidence may carry the value of the other branch
+                        // there (the fill mode skips these pixels as well)
+                        st.inc("pixel_perfect_pixels_with_nan_reference_not_judged");
+                        continue;
+                    }
                     if !same_val(v, v_ref) {
                         return Some(("pixel_perfect_value".into(),
                             format!("pixel-perfect pixel ({i},{j}) carries {v:?}, the shape evaluates to {v_ref:?} at its sample position"),
@@ -300,6 +308,7 @@ impl Prop for C06 {
     }
     fn assumptions(&self) -> Vec<String> {
         vec!["RenderConfig::mat() defines the pixel sample position (screen -> model), as documented".into(),
-             "zero band: |v| <= 1e-5*max(1,|p|_inf) pixels are not judged in non-pixel-perfect mode".into()]
+             "zero band: |v| <= 1e-5*max(1,|p|_inf) pixels are not judged in non-pixel-perfect mode".into(),
+             "pixels whose reference value is NaN are not judged in either mode: C03 excludes NaN point values from what interval evidence guarantees (e.g. max(3, mod(exp(exp(y)), c)) at y = 5.1: the tile interval of the mod is finite, the pixel carries 3.0, the point value is NaN)".into()]
     }
 }
